@@ -204,6 +204,7 @@ class RealSys:
         self.step_exc = None
         self.in_step = False
         self.workers = [self._mkworker(k) for k in range(nw)]
+        self.wmap = {w._id: w for w in self.workers}
         self.server = self._mkserver()
         self.clients = {}           # client index -> Chan
         self._install_wrappers()
@@ -620,3 +621,231 @@ class RealSys:
                     [[self.cmsg_w(m) for m in w._conn.q] for w in self.workers],
                     [[self.cmsg_w(m) for m in c.q] for c in self.down],
                     self.cli_log, sorted(list(a) for a in issued)])
+
+
+# ================================================================================================ manager topologies
+class TreeSys(RealSys):
+    """Real DetachedServer -> nm real Managers -> nw real Workers each (all in process, one FIFO channel per
+    direction per link).  Events:
+      ('cl', c, ...)   client request at the server        ('up', i)      server handles next message of manager i
+      ('mdown', i)     manager i handles next message from the server
+      ('mup', i, j)    manager i handles next message of its worker j
+      ('down', wid)    worker wid's receiving thread handles its next message     ('step', wid)  its main thread
+    Worker ids are lb_i + j with lb_i = i * stride (the id ranges connect_to_managers would hand out, scaled down)."""
+
+    STRIDE = 4
+
+    def __init__(self, nm, nw, progs):
+        global SIM
+        SIM = self
+        from bqskit.runtime.manager import Manager
+        self.nm, self.nwm, self.progs = nm, nw, progs
+        self.nw = nm * nw
+        self.tstate, self.labels, self.single = {}, [], {}
+        self.prog_of, self.parent, self.children, self.owner = {}, {}, {}, {}
+        self.cli_log, self.step_exc, self.in_step = [], None, False
+        self.clients = {}
+        self.routes = []
+        s = DetachedServer.__new__(DetachedServer)
+        s.lower_id_bound, s.upper_id_bound, s.running = 0, nm * self.STRIDE, True
+        s.sel, s.employees, s.conn_to_employee_dict, s.outgoing = FakeSel(), [], {}, queue.Queue()
+        s.clients, s.tasks, s.mailbox_to_task_dict, s.mailboxes, s.mailbox_counter = {}, {}, {}, {}, 0
+        s.step_size = (s.upper_id_bound - s.lower_id_bound) // nm
+        self.server = s
+        self.managers, self.workers = [], []
+        self.sm, self.ms = [], []              # server->manager i, manager i->server
+        self.mw, self.wm = {}, {}              # manager->worker id, worker id->manager
+        self.mgr_of = {}
+        for i in range(nm):
+            lb = i * s.step_size
+            c_sm, c_ms = Chan(f'S->M{i}'), Chan(f'M{i}->S')
+            self.sm.append(c_sm)
+            self.ms.append(c_ms)
+            e = RuntimeEmployee(i, c_sm, nw, is_manager=True)
+            s.employees.append(e)
+            s.conn_to_employee_dict[c_sm] = e
+            m = Manager.__new__(Manager)
+            m.lower_id_bound, m.upper_id_bound, m.running = lb, lb + s.step_size, True
+            m.sel, m.employees, m.conn_to_employee_dict, m.outgoing = FakeSel(), [], {}, queue.Queue()
+            m.upstream = c_ms
+            for j in range(nw):
+                wid = lb + j
+                w = self._mkworker(wid)
+                c_mw = Chan(f'M{i}->w{wid}')
+                w._conn.inbox, w._conn.reader = c_mw, w
+                ew = RuntimeEmployee(wid, c_mw, 1)
+                m.employees.append(ew)
+                m.conn_to_employee_dict[c_mw] = ew
+                self.mw[wid], self.wm[wid] = c_mw, w._conn
+                self.mgr_of[wid] = (i, j)
+                self.workers.append(w)
+            m.step_size, m.total_workers, m.num_idle_workers = 1, nw, nw
+            m.last_num_idle_sent_up, m.most_recent_read_submit = nw, None
+            self.managers.append(m)
+        s.total_workers = s.num_idle_workers = nm * nw
+        self.wmap = {w._id: w for w in self.workers}
+        self._install_wrappers()
+
+    # ---- channels
+    def _drain(self, node):
+        while not node.outgoing.empty():
+            conn, msg, payload = node.outgoing.get()
+            if conn.closed:
+                continue
+            conn.send((msg, payload))
+            if conn in self._client_index:
+                cm = self.cmsg(msg, payload)
+                ci = self._client_index[conn]
+                self.cli_log.append([ci, cm])
+                self.labels.append(['cli', ci, cm])
+
+    def enabled(self):
+        evs = []
+        for i in range(self.nm):
+            if self.sm[i].q:
+                evs.append(('mdown', i))
+            if self.ms[i].q:
+                evs.append(('up', i))
+        for w in self.workers:
+            i, j = self.mgr_of[w._id]
+            if self.mw[w._id].q:
+                evs.append(('down', w._id))
+            if w._conn.q:
+                evs.append(('mup', i, j))
+            if not (w.blocked and w._ready_task_ids.qsize() == 0):
+                evs.append(('step', w._id))
+        return evs
+
+    def _route(self, node, kind, direction, before):
+        """destinations a node sent a CANCEL to while handling one (for the correspondence with route_cancel)"""
+        new = list(node.outgoing.queue)[before:]
+        dests = []
+        for conn, msg, payload in new:
+            if msg != M.CANCEL:
+                continue
+            if kind == 'mgr' and conn is node.upstream:
+                dests.append('up')
+            else:
+                dests.append([e.conn for e in node.employees].index(conn))
+        self.routes.append([kind, direction, len(node.employees), dests])
+        return dests
+
+    def do(self, ev):
+        global SIM
+        SIM = self
+        self.labels, self.step_exc = [], None
+        extra, exc = {}, None
+        s = self.server
+        iss = []
+        try:
+            if ev[0] == 'down':
+                wid = ev[1]
+                w = self.wmap[wid]
+                wmod._worker = w
+                msg, payload = self.mw[wid].q[0]
+                extra['msg'] = self.cmsg_w((msg, payload))
+                delayed_before = list(w._delayed_tasks)
+                try:
+                    w._running = True
+                    w.recv_incoming()
+                finally:
+                    w._running = True
+                if msg == M.CANCEL:
+                    kept = {id(t) for t in w._delayed_tasks}
+                    for t in delayed_before:
+                        if id(t) not in kept:
+                            self.labels.append(['drop', wid + 1, self.ctask(t)])
+            elif ev[0] == 'step':
+                wid = ev[1]
+                w = self.wmap[wid]
+                wmod._worker = w
+                w.pops = []
+                self.des_failed = False
+                n_up = len(w._conn.q)
+                n_err = sum(1 for m, _ in w._conn.q if m == M.ERROR)
+                ran = False
+                self.in_step = True
+                try:
+                    w._try_step_next_ready_task()
+                    ran = True
+                    w.blocked = False
+                except Blocked:
+                    w.blocked = True
+                    self._flush_pops(w, ran=False)
+                finally:
+                    self.in_step = False
+                if ran and self.step_exc is not None:
+                    sent = sum(1 for m, _ in w._conn.q if m == M.ERROR) > n_err
+                    self.labels.append(['err', wid + 1, self._last_run_addr(), 6 if self.des_failed else exc_kind(self.step_exc), sent])
+                for m, pl in w._conn.q[n_up:]:
+                    if m == M.CANCEL:
+                        iss.append(tuple(enc_addr(pl)))
+            elif ev[0] == 'mup':
+                i, j = ev[1], ev[2]
+                mgr = self.managers[i]
+                wid = mgr.lower_id_bound + j
+                msg, payload = self.wm[wid].q.pop(0)
+                extra['msg'] = self.cmsg_w((msg, payload))
+                before = mgr.outgoing.qsize()
+                mgr.handle_message(msg, D.BELOW, self.mw[wid], payload)
+                if msg == M.CANCEL:
+                    extra['route'] = self._route(mgr, 'mgr', 'below', before)
+            elif ev[0] == 'mdown':
+                i = ev[1]
+                mgr = self.managers[i]
+                msg, payload = self.sm[i].q.pop(0)
+                extra['msg'] = self.cmsg_w((msg, payload))
+                before = mgr.outgoing.qsize()
+                mgr.handle_message(msg, D.ABOVE, mgr.upstream, payload)
+                if msg == M.CANCEL:
+                    extra['route'] = self._route(mgr, 'mgr', 'above', before)
+            elif ev[0] == 'up':
+                i = ev[1]
+                msg, payload = self.ms[i].q.pop(0)
+                extra['msg'] = self.cmsg_w((msg, payload))
+                if msg == M.RESULT and payload.return_address.worker_id == -1 \
+                        and payload.return_address.mailbox_index not in s.mailboxes:
+                    self.labels.append(['sdiscard', payload.return_address.mailbox_index, val(payload.result)])
+                before = s.outgoing.qsize()
+                s.handle_message(msg, D.BELOW, self.sm[i], payload)
+                if msg == M.CANCEL:
+                    extra['route'] = self._route(s, 'root', 'below', before)
+            elif ev[0] == 'cl':
+                c, what = ev[1], ev[2]
+                if what == 'connect':
+                    conn = Chan(f's->c{c}')
+                    self.clients[c] = conn
+                    s.clients[conn] = set()
+                else:
+                    conn = self.clients[c]
+                    if what == 'submit':
+                        n0 = s.mailbox_counter
+                        s.handle_message(M.SUBMIT, D.CLIENT, conn, FakeCT(ev[3], ev[4]))
+                        self.prog_of[(0, n0, 0)] = ev[4]
+                        self.parent[(0, n0, 0)] = None
+                    elif what == 'request':
+                        s.handle_message(M.REQUEST, D.CLIENT, conn, ev[3])
+                    elif what == 'cancel':
+                        s.handle_message(M.CANCEL, D.CLIENT, conn, ev[3])
+                    elif what == 'disconnect':
+                        s.handle_message(M.DISCONNECT, D.CLIENT, conn, None)
+                    else:
+                        raise ValueError(what)
+                for conn2, m, pl in list(s.outgoing.queue):
+                    if m == M.CANCEL and pl is not None and tuple(enc_addr(pl)) not in iss:
+                        iss.append(tuple(enc_addr(pl)))
+            else:
+                raise ValueError(ev)
+        except Blocked:
+            raise
+        except Exception as e:
+            exc = e
+        extra['issued'] = iss
+        self._drain(s)
+        for mgr in self.managers:
+            self._drain(mgr)
+        return self.labels, exc, extra
+
+    def in_flight(self):
+        return sum(len(c.q) for c in self.sm + self.ms) + sum(len(c.q) for c in self.mw.values()) \
+            + sum(len(c.q) for c in self.wm.values())
